@@ -294,10 +294,32 @@ static void body_tls_b(int k, Log& log) {
   YP();
 }
 
+// B7: ThreadLocal of an element type whose constructor is a scheduling point: another thread can run its own
+// first initialisation of the same (T, Slot) while this thread is still inside T's constructor
+struct SlotC;
+static void body_tls_ctor(int k, Log& log) {
+  const int v = 100 * (k + 1);
+  {
+    nop::ThreadLocal<YElem, SlotC> a{v};
+    YP();
+    log.push_back("a.get=" + std::to_string(a.Get().v));
+    nop::ThreadLocal<YElem, SlotC> a2{v + 1};  // first initialisation wins
+    YP();
+    log.push_back("a2.get=" + std::to_string(a2.Get().v));
+    a.Clear();
+    YP();
+    a.Initialize(v + 2);
+    YP();
+    log.push_back("a.after-clear-init=" + std::to_string(a.Get().v));
+    a.Clear();
+  }
+  log.push_back("live:" + std::to_string(YElem::live));
+}
+
 struct Body { const char* name; void (*fn)(int, Log&); };
 static const Body kBodies[] = {{"roundtrip", body_roundtrip}, {"table", body_table}, {"values", body_values}, {"rpc", body_rpc},
-                               {"tlsA", body_tls_a}, {"tlsB", body_tls_b}, {"rpcMethod", body_rpc_method}};
-static const int kNumBodies = 7;
+                               {"tlsA", body_tls_a}, {"tlsB", body_tls_b}, {"rpcMethod", body_rpc_method}, {"tlsCtor", body_tls_ctor}};
+static const int kNumBodies = 8;
 
 static std::string join(const Log& l) { std::string s; for (auto& x : l) s += x + "\n"; return s; }
 
